@@ -88,6 +88,9 @@ func (u *Unit) execInstr(fr *Frame, st *State, in ssa.Instruction) {
 				return
 			}
 		}
+		if _, ln, ok := u.lenTerm(base, x.X.Type()); ok {
+			u.oblige("nopanic.index", u.panicProps(), "", st.pc, And(Cmp("<=", TZero, it), Cmp("<", it, ln)), where, "index out of range")
+		}
 		// unknown element: a throw-away cell with a fresh value
 		c := u.newCell(elem, "idx")
 		u.storeCell(st, c, nil, elem, u.freshVal(elem, "elem", st.pc))
@@ -99,6 +102,14 @@ func (u *Unit) execInstr(fr *Frame, st *State, in ssa.Instruction) {
 	case *ssa.Lookup:
 		m := u.get(fr, x.X)
 		k := u.get(fr, x.Index)
+		if isStringType(x.X.Type()) {
+			if _, ln, ok := u.lenTerm(m, x.X.Type()); ok {
+				kt := u.termOf(k)
+				u.oblige("nopanic.index", u.panicProps(), "", st.pc, And(Cmp("<=", TZero, kt), Cmp("<", kt, ln)), where, "string index out of range")
+			}
+			fr.vals[x] = u.freshVal(x.Type(), "byte", st.pc)
+			return
+		}
 		if mv, ok := m.(*MapV); ok {
 			et := x.X.Type().Underlying().(*types.Map).Elem()
 			v, has := u.mapLookup(st, mv, u.termOf(k))
@@ -173,6 +184,34 @@ func (u *Unit) execInstr(fr *Frame, st *State, in ssa.Instruction) {
 				fr.vals[x] = &SliceV{Cell: p.Cell, N: int(at.Len()), T: IntLit(int64(-200000 - p.Cell.ID)), Typ: x.Type()}
 				return
 			}
+		}
+		if bt, ln, ok := u.lenTerm(base, x.X.Type()); ok && (x.Low != nil || x.High != nil) {
+			// s[lo:hi] on a string or a slice: 0 <= lo <= hi <= len (cap for slices)
+			lo, hi := TZero, ln
+			if x.Low != nil {
+				lo = u.termOf(u.get(fr, x.Low))
+			}
+			if x.High != nil {
+				hi = u.termOf(u.get(fr, x.High))
+			}
+			limit := ln
+			if !isStringType(x.X.Type()) {
+				limit = App(SInt, "CapOf", bt)
+				u.assume(st.pc, Cmp(">=", limit, ln))
+			}
+			u.oblige("nopanic.slice_bounds", u.panicProps(), "", st.pc, And(Cmp("<=", TZero, lo), Cmp("<=", lo, hi), Cmp("<=", hi, limit)), where, "slice bounds out of range")
+			r := u.fresh(SInt, "sliced")
+			u.assume(st.pc, Eq(App(SInt, "LenOf", r), Arith("-", hi, lo)))
+			if isStringType(x.X.Type()) {
+				fr.vals[x] = &Scalar{T: r, Typ: x.Type()}
+			} else {
+				fr.vals[x] = &SliceV{T: r, Typ: x.Type()}
+			}
+			return
+		}
+		if isStringType(x.X.Type()) {
+			fr.vals[x] = u.freshVal(x.Type(), "substr", st.pc)
+			return
 		}
 		fr.vals[x] = &SliceV{T: u.fresh(SInt, "slice"), Typ: x.Type()}
 
@@ -295,6 +334,56 @@ func (u *Unit) isSharedStruct(t types.Type) bool {
 	}
 	// every named package struct that is allocated with new/&T{} and escapes
 	return true
+}
+
+// lenTerm: the identity and the length of a string or slice value, when the engine tracks one.
+func (u *Unit) lenTerm(v Val, t types.Type) (Term, Term, bool) {
+	switch b := v.(type) {
+	case *SliceV:
+		if b.Cell != nil {
+			return b.T, IntLit(int64(b.N)), true
+		}
+		l := App(SInt, "LenOf", b.T)
+		u.assume(TTrue, Cmp(">=", l, TZero))
+		return b.T, l, true
+	case *Scalar:
+		switch t.Underlying().(type) {
+		case *types.Basic, *types.Slice:
+			if b.T.Sort != SInt {
+				return Term{}, Term{}, false
+			}
+			l := App(SInt, "LenOf", b.T)
+			u.assume(TTrue, Cmp(">=", l, TZero))
+			return b.T, l, true
+		}
+	}
+	return Term{}, Term{}, false
+}
+
+func isStringType(t types.Type) bool {
+	b, ok := t.Underlying().(*types.Basic)
+	return ok && b.Info()&types.IsString != 0
+}
+
+// panicProps: run-time panics count for C13 (no crash on any record content) and for the properties the
+// function is tagged with.
+func (u *Unit) panicProps() []string {
+	props := []string{"C13"}
+	fc := u.eng.cs.Funcs[u.curKey()]
+	if fc == nil {
+		fc = u.fc
+	}
+	if fc != nil {
+		if fc.Flags["untagged_panics"] {
+			return nil
+		}
+		for _, t := range fc.Tags {
+			if t != "C13" {
+				props = append(props, t)
+			}
+		}
+	}
+	return props
 }
 
 // structRef: a reference (Scalar) to a package struct as a heap pointer to the whole object, or nil.
@@ -482,11 +571,15 @@ func (u *Unit) binop(fr *Frame, st *State, op token.Token, a, b Val, rt types.Ty
 			return &Scalar{T: r, Typ: rt}
 		}
 		r := Arith("+", x, y)
-		u.overflow(st, r, rt, where)
+		if !u.counterStep(a, b) {
+			u.overflow(st, r, rt, where)
+		}
 		return mk(r)
 	case token.SUB:
 		r := Arith("-", x, y)
-		u.overflow(st, r, rt, where)
+		if !u.counterStep(a, b) {
+			u.overflow(st, r, rt, where)
+		}
 		return mk(r)
 	case token.MUL:
 		r := Arith("*", x, y)
@@ -508,6 +601,23 @@ func (u *Unit) binop(fr *Frame, st *State, op token.Token, a, b Val, rt types.Ty
 	}
 	u.note("unsupported binary op %s", op)
 	return u.freshVal(rt, "binop", st.pc)
+}
+
+// counterStep: x ± 1 on the value of a field declared `counter` (every store to such a field is checked to be a
+// step of one, so it is 2^63 steps away from wrapping; listed as an assumption in the evidence).
+func (u *Unit) counterStep(a, b Val) bool {
+	sa, ok1 := a.(*Scalar)
+	sb, ok2 := b.(*Scalar)
+	if !ok1 || !ok2 || !strings.HasPrefix(sa.Origin, "field:") || sb.T.S != "1" {
+		return false
+	}
+	key := strings.TrimPrefix(sa.Origin, "field:")
+	fd := u.eng.cs.Fields[key]
+	if fd == nil || !fd.Counter {
+		return false
+	}
+	u.assumedUsed["arithmetic counter-step "+key]++
+	return true
 }
 
 // overflow emits an arithmetic-overflow obligation for every signed or narrow integer operation;
